@@ -235,9 +235,43 @@ def _corrupt_override(rng, item):
     return "/".join(path + [key]) + "=" + val
 
 
+# key types whose result is not the text they were given (not idempotent, or
+# not a string at all): legal -- any datatype may serve as a key type
+ODD_KEYTYPES = {
+    "byte-size": (["1kb", "2MB", "10"], ["lots", "1kb"]),
+    "inet-address": (["host:80", ":99"], ["host:port", "host:80"]),
+    "timedelta": (["4w", "1.5h"], ["5x", "4w"]),
+    "time-interval": (["5", "2m"], ["soon", "2m"]),
+    "port-number": (["80", "65535"], ["70000", "80"]),
+    "float": (["1.5", "1e3"], ["abc", "1.5"]),
+    "boolean": (["yes", "off"], ["maybe", "yes"]),
+}
+
+
+def odd_keytype_plan(rng):
+    """A schema whose keys are of an unusual key type, free keys ('+') under
+    it, a text that sets some, overrides that name some (present or new)."""
+    kt = rng.choice(sorted(ODD_KEYTYPES))
+    good, other = ODD_KEYTYPES[kt]
+    xml = ('<schema keytype="%s">\n  <key name="+" attribute="m"/>\n'
+           '</schema>\n' % kt)
+    top = "file:///sim/okt/top.conf"
+    lines = ["%s v%d" % (k, i) for i, k in enumerate(
+        rng.sample(good, rng.randint(0, len(good))))]
+    overrides = ["%s=ov%d" % (rng.choice(good + other), i)
+                 for i in range(rng.randint(0, 2))]
+    return {"prop": ID, "schema_xml": xml,
+            "store": {top: "".join(ln + "\n" for ln in lines)},
+            "top": top, "entry": rng.choice(["url", "file", "file-nourl"]),
+            "overrides": overrides, "realfs": False, "faults": [],
+            "validator": None, "labels": ["odd-keytype:" + kt]}
+
+
 def generate(rng, tier, index):
     if index < N_GRAPH:
         return graph_plan(index)
+    if rng.random() < 0.01:
+        return odd_keytype_plan(rng)
     # a third of the schemas also use application datatypes / key types
     # (zcsim.simdt): they reject with ValueError in every shape the language
     # allows (no message, several arguments, a subclass, raised "from"
